@@ -5,11 +5,10 @@ mod iptab;
 mod linkh;
 mod modcmp;
 mod msgh;
-mod simh;
 mod tcbh;
 mod udph;
-mod util;
 
+pub use hv_common::{simh, util};
 use serde_json::{json, Value};
 use util::*;
 
